@@ -64,6 +64,10 @@ def trusted_base(prop, results, waived):
     if any("--no-signed-overflow-check" in j.job.cbmc_flags for j in results):
         t.append("signed + - in element loops wrap (two's complement; the library is built and tested that way; "
                  "posts are stated in exact wide arithmetic so a wrap that changes a result still fails)")
+    if any(getattr(j.job, "strict_shim", 0) == 2 for j in results):
+        t.append("q120.avx2.* runs: the ghost sums, call counters and recorded operands live in the MODEL of _mm256_mul_epu32 "
+                 "(shim/builtins.c, SHIM_GHOST_MUL): 'the product the model returns is lo32(a)*lo32(b)' is the Intel SDM definition of vpmuludq, "
+                 "cross-checked against the hardware at setup; the accumulators are tied to those ghost sums by the loop invariant")
     if waived:
         t.append("waived by name (gcc-defined behaviour the library relies on): " + "; ".join(sorted(set(w.split(': ')[1].split(' (')[0] for w in waived))))
     for r in results:
@@ -78,6 +82,10 @@ def assumptions(prop):
         extra = ["cache.* runs: the kernels behind ->function are not executed (bodies removed; what a kernel computes from a given table is C14/C17's subject)",
                  "cache.* pointer-array caches: the constructors new_*_precomp are replaced by an assumed contract (fresh table object for dimension m, deterministic in m)",
                  "cache.* runs: the CPU feature bits are fixed per process (one nondeterministic bit per feature for the whole run)"]
+    if prop in ("C04", "C10", "C07"):
+        extra += ["q120.avx2.* / q120.bbc.*x2*: one run per (tracked row, lane); in a lane's run the overflow obligations of the other three lanes are waived by name "
+                  "and are obligations of the sibling runs; congruence of the exact sums modulo each prime is the z3 lemma set (lemmas/q120_lemmas.py) plus the table check (S5)",
+                  "q120.avx2_eq_ref.* are bounded stand-ins (S4): ell concrete, every operand value"]
     return extra + ["ghost index G / (G_limb,G_coef) nondeterministic => statement holds for every index (no quantifier used)",
             "S3 obligations are bounded in the number of limbs (box stated per job) and unbounded in N and data",
             "S4 obligations are bounded stand-ins and are never counted in discharged"]
